@@ -22,7 +22,9 @@ impl<T> FromConcurrentStream<T> for Vec<T> {
         S: IntoConcurrentStream<Item = T>,
     {
         let stream = iter.into_co_stream();
-        let mut output = Vec::with_capacity(stream.size_hint().1.unwrap_or_default());
+        // Like `Iterator::collect`, only reserve what the stream promises to
+        // yield: the upper bound is merely a bound and may be arbitrarily large.
+        let mut output = Vec::with_capacity(stream.size_hint().0);
         stream.drive(VecConsumer::new(&mut output)).await;
         output
     }
@@ -34,7 +36,7 @@ impl<T, E> FromConcurrentStream<Result<T, E>> for Result<Vec<T>, E> {
         S: IntoConcurrentStream<Item = Result<T, E>>,
     {
         let stream = iter.into_co_stream();
-        let mut output = Ok(Vec::with_capacity(stream.size_hint().1.unwrap_or_default()));
+        let mut output = Ok(Vec::with_capacity(stream.size_hint().0));
         stream.drive(ResultVecConsumer::new(&mut output)).await;
         output
     }
